@@ -170,6 +170,31 @@ fn backend<B: Backend>(opts: &Opts, rep: &mut Report) {
                         expect_err::<B>(rep, kind, "one-bit-wrapping-key", &blob, &w, &key_raw);
                     }
                 }
+                // secrets one byte away from the right one, each tried immediately after the right secret
+                // has opened the blob on this thread (state derived for the right secret must not serve another)
+                for i in 0..32usize {
+                    let mut w = s.clone();
+                    if kind.is_pie() {
+                        w.wk[i] ^= 1 << (i % 8);
+                    } else if kind.is_pw() {
+                        let n = w.pass.len();
+                        w.pass[i % n] ^= 1 << (i % 7);
+                    } else {
+                        if B::VER == 1 || i % 4 != 0 {
+                            continue;
+                        }
+                        let seed_len = if B::VER == 3 { 48 } else { 32 };
+                        let mut sec = s.pke_sk[..seed_len].to_vec();
+                        sec[seed_len - 1 - i] ^= 1 << (i % 8);
+                        let Some((sk, pk)) = crate::monitors::c05::pke_pair_from::<B>(&sec) else { continue };
+                        w.pke_sk = sk;
+                        w.pke_pk = pk;
+                    }
+                    if !matches!(guard(|| unwrap::<B>(kind, &blob, &s)), Ok(Ok(k)) if k == key_raw) {
+                        rep.violation(&format!("C06|{}|{}|own-blob-rejected-in-sequence", B::NAME, kind.name()), json!({"blob": blob}));
+                    }
+                    expect_err::<B>(rep, kind, "near-secret-after-right-secret", &blob, &w, &key_raw);
+                }
                 if kind.is_pw() {
                     for pass in [&b""[..], b"correct horse battery staplf", b"correct horse battery staple\x00", b"Correct horse battery staple"] {
                         // PBKDF2-HMAC zero-pads keys shorter than the hash block, so for k1/k3 a password and
@@ -283,7 +308,7 @@ pub fn run(opts: &Opts) {
     pairs!(V1 => V3Lc, V3Lc => V1, V2 => V4Na, V4Na => V2, V3Lc => V4Na, V4Na => V3Lc, V3 => V4Na, V4 => V3Lc, V3Lc => V4, V4Na => V3, V3Lc => V2, V4Na => V1);
     rep.set(
         "rule",
-        json!("fault enumeration per wrapped/sealed blob (plus, for password wraps, a family of ~30 look-alike passwords - trailing/leading whitespace of every kind, case, doubled spaces, NFC/NFD, truncation, repetition - wrapped with one member and unwrapped with every other): every single-bit flip of every byte (tag, nonce, salt, parameters, ephemeral key / RSA ciphertext, encrypted key), truncation to every length, extensions, every other kind's header over the same body (same backend and every other version with the same wrapping key / password / where formats coincide the same recipient key), wrong wrapping key (random, one bit), wrong password (prefix, one char, empty, NUL suffix, case), other recipient; non-trivial = differs from the produced blob/secret; KDF costs beyond 64 MiB / 3 passes / 200k iterations are skipped and counted"),
+        json!("fault enumeration per wrapped/sealed blob (plus secrets one byte away from the right one tried right after the right one opened the blob; plus, for password wraps, a family of ~30 look-alike passwords - trailing/leading whitespace of every kind, case, doubled spaces, NFC/NFD, truncation, repetition - wrapped with one member and unwrapped with every other): every single-bit flip of every byte (tag, nonce, salt, parameters, ephemeral key / RSA ciphertext, encrypted key), truncation to every length, extensions, every other kind's header over the same body (same backend and every other version with the same wrapping key / password / where formats coincide the same recipient key), wrong wrapping key (random, one bit), wrong password (prefix, one char, empty, NUL suffix, case), other recipient; non-trivial = differs from the produced blob/secret; KDF costs beyond 64 MiB / 3 passes / 200k iterations are skipped and counted"),
     );
     rep.finish(opts);
 }
